@@ -278,17 +278,21 @@ def runCmd (args : List String) : String :=
     | none => "BADARG"
     | some items =>
       match buildProgs (collectProgs algs) 1 with
-      | none => "RES ERR closes=1 strong=1"
+      | none => "RES ERR closes=1 strong=1 late=NONE"
       | some progs =>
         let cfg : Cfg := { algs := algs.map fun a => { name := a.name, hasInstance := a.inst }, progs := progs }
         let pol := mkPolicy algs progs
         let fuel := items.length + 2 + (items.foldl (fun n i => match i with
           | .dgram _ ms => n + (ms.flatMap (renderMsg fun _ => none)).length | _ => n) 0)
         match runDriver algs progs cfg pol fuel (Backend.new (List.replicate 1024 0)) items St.init [] with
-        | .panic => "RES PANIC closes=1 strong=1"
+        | .panic => "RES PANIC closes=1 strong=1 late=NONE"
         | .err => "RES MODELERR"
         | .ok (evs, r) =>
+          -- every third case (by script length) the harness keeps a COPY of the first flow's handle outside the runtime: the weak
+          -- reference it holds makes `Rc::get_mut` in `Backend::drop` fail, so `Ipc::close` is skipped (closes=0), and using the
+          -- handle after the run gives an error (C19.dead_handle_is_err)
+          let parked := script.length % 3 = 0 ∧ evs.any (fun e => match e with | .newFlow .. => true | _ => false)
           joinWith " | " ((sortDrRuns evs).map (showEv algs progs) ++
-            [s!"RES {if r == .ok then "OK" else "ERR"} closes=1 strong=1"])
+            [s!"RES {if r == .ok then "OK" else "ERR"} closes={if parked then 0 else 1} strong=1 late={if parked then "ERR" else "NONE"}"])
 
 end Portus.Driver
